@@ -1109,13 +1109,17 @@ func init() {
 	runners["C10"] = func(c *Ctx) {
 		c.Compare = c10cmp
 		c10note = func(s string) { c.Dist[s]++ }
-		c.Rule = "pairs of referentially closed family-graph documents (0..25 people each): base + edited copy with the same / renumbered / reshuffled pointers, dropped and added people, changed facts, shuffled records; disjoint worlds with disjoint or clashing pointers; empty documents; inputs prepared through the API (DeleteNode / SetNodes / AddIndividual / AddFamily / AddChild) and chains of 2-3 merges whose results are edited and merged again; renumbered copies with shared _UIDs, swapped pointers and namesakes; unchanged copies of fully documented families with only non-vital facts edited (weighted similarity 1.0); default, strict (0.95), lenient (0.4) and always-trust-the-pointer (PreferPointerAbove 0) thresholds; library call and query function; individuals with two or three unique identifiers (_UID several times, _UID with _FSFTID / _FID) that lead to different individuals of the other document, to the same one or to nobody, carrier on either side; a document of n individuals (pointer, identifier, marker) merged with its re-marked copy for n in 999, 1000, 1001, 2000, 2001, 2002, 2100 (thorough: also 4100, every variant), all matched for certain by _UID or by pointer, through the library (Jobs 0, 2, 4, 16) and q, under a 25 s watchdog with the accounting oracle on the result; distinct = (shape, merged, unmerged, any broken reference)"
+		c.Rule = "pairs of referentially closed family-graph documents (0..25 people each): base + edited copy with the same / renumbered / reshuffled pointers, dropped and added people, changed facts, shuffled records; disjoint worlds with disjoint or clashing pointers; empty documents; inputs prepared through the API after earlier reads (Individuals / Families / Warnings) and earlier merges of the same document (DeleteNode / SetNodes / AddIndividual / AddFamily / AddChild, people and couples attached through the generic AddNode with DeepCopy) and chains of 2-3 merges whose results are edited and merged again; documents the decoder accepts with role lines outside FAM records (outside the property's domain: the model's prediction whether the merged text decodes again is compared with the real decoder); renumbered copies with shared _UIDs, swapped pointers and namesakes; unchanged copies of fully documented families with only non-vital facts edited (weighted similarity 1.0); default, strict (0.95), lenient (0.4) and always-trust-the-pointer (PreferPointerAbove 0) thresholds; library call and query function; individuals with two or three unique identifiers (_UID several times, _UID with _FSFTID / _FID) that lead to different individuals of the other document, to the same one or to nobody, carrier on either side; a document of n individuals (pointer, identifier, marker) merged with its re-marked copy for n in 999, 1000, 1001, 2000, 2001, 2002, 2100 (thorough: also 4100, every variant), all matched for certain by _UID or by pointer, through the library (Jobs 0, 2, 4, 16) and q, under a 25 s watchdog with the accounting oracle on the result; distinct = (shape, merged, unmerged, any broken reference)"
 		c.Notes = append(c.Notes,
 			"the matching is read off unique marker lines in the output; who is matched with whom is C11's property, C10 checks that everyone is accounted for whatever the matching",
+			"after every merge the real Compare is run on the same individuals and options: its matching must be the one the merge used and the one C11's model computes from the persons and the exact scores (mergecomposed request; score ties / ambiguous identifiers are counted inconclusive)",
 			"ConcurrentJobs is left at its default (the data races of the parallel comparison are C11's finding)")
 		shapes := []string{"copy-samepointers", "copy-renumbered", "copy-shifted", "disjoint", "clashing", "copy-samepointers", "copy-renumbered",
 			"empty-both", "empty-left", "empty-right"}
 		n := c.N(2500, 40000)
+		// the large merges run first: they are timed by a watchdog, and the requests of tens of
+		// thousands of cases kept for the driver (a few GB in the thorough tier) slow the process down
+		c10Large(c)
 		c10Roles(c)
 		{
 			l, r, _ := c10Pair(c.R, "witness", 2)
@@ -1149,6 +1153,5 @@ func init() {
 				c10Run(c, l, rt, "multi-uid", via, minSim)
 			}
 		}
-		c10Large(c)
 	}
 }
